@@ -619,22 +619,58 @@ type suspect struct {
 func runFamilies(fams []*family, deadline time.Time) (*stats, bool, []suspect) {
 	// slow parsers (REST compiles one regexp per api and request; gRPC asks the reflection server)
 	// get small chunks and are scheduled first so that they are spread over all workers
-	var chunks, fast []chunk
-	for _, f := range fams {
-		size := int64(chunkSize)
-		slow := f.t.kind == spectypes.APIInterfaceRest || f.t.kind == spectypes.APIInterfaceGrpc
-		if slow {
-			size = 8
+	// order: corpus mutations, then framed and URI sequences, raw sequences last (a run cut short by
+	// the deadline has then covered the semantically deepest families)
+	prio := func(f *family) int {
+		switch {
+		case strings.Contains(f.name, "/corpus"):
+			return 0
+		case strings.Contains(f.name, "/raw/"):
+			return 2
 		}
-		for lo := int64(0); lo < f.n; lo += size {
-			hi := lo + size
-			if hi > f.n {
-				hi = f.n
+		return 1
+	}
+	fams = append([]*family{}, fams...)
+	sort.SliceStable(fams, func(i, j int) bool { return prio(fams[i]) < prio(fams[j]) })
+	var chunks, fast []chunk
+	for pr := 0; pr <= 2; pr++ {
+		// within a priority class the chunks of all families are taken round-robin
+		var perFam [][]chunk
+		var perSlow []bool
+		for _, f := range fams {
+			if prio(f) != pr {
+				continue
 			}
+			size := int64(chunkSize)
+			slow := f.t.kind == spectypes.APIInterfaceRest || f.t.kind == spectypes.APIInterfaceGrpc
 			if slow {
-				chunks = append(chunks, chunk{f, lo, hi})
-			} else {
-				fast = append(fast, chunk{f, lo, hi})
+				size = 8
+			}
+			var cs []chunk
+			for lo := int64(0); lo < f.n; lo += size {
+				hi := lo + size
+				if hi > f.n {
+					hi = f.n
+				}
+				cs = append(cs, chunk{f, lo, hi})
+			}
+			perFam = append(perFam, cs)
+			perSlow = append(perSlow, slow)
+		}
+		for round := 0; ; round++ {
+			any := false
+			for fi, cs := range perFam {
+				if round < len(cs) {
+					any = true
+					if perSlow[fi] {
+						chunks = append(chunks, cs[round])
+					} else {
+						fast = append(fast, cs[round])
+					}
+				}
+			}
+			if !any {
+				break
 			}
 		}
 	}
@@ -1192,6 +1228,13 @@ func run(run *ev.Run) {
 	}
 	if v := os.Getenv("C38_SMALL"); v != "" { // development aid
 		b = bounds{rawLen: 3, frameLen: 2, urlLen: 2, restLen: 1, grpcLen: 2, deadline: 60 * time.Second}
+	}
+	if v := os.Getenv("C38_DEADLINE_S"); v != "" { // development aid: measure a complete run on a loaded machine
+		var sec int
+		fmt.Sscan(v, &sec)
+		if sec > 0 {
+			b.deadline = time.Duration(sec) * time.Second
+		}
 	}
 	start := time.Now()
 	targets := map[string]*target{}
